@@ -358,7 +358,10 @@ def run_op(pool, op):
             return fp(dump_load.load(path))
         if name == 'transform_res':
             # the same circuit object and frequency with another resolution (a memo must not forget the resolution)
-            return fp(cc.transform_circuit(pool[args[0]], args[1], args[2]))
+            c = pool[args[0]]
+            ws = [float(x.value['w']) for x in c.components if 'w' in x.value and float(x.value['w']) > 0]
+            w = (ws[0] + args[1]) if ws else 50.0 + args[1]          # args[1]: offset from the first source frequency
+            return fp(cc.transform_circuit(c, w, args[2]))
         if name == 'edit_schematic':
             # one Schematic object translated, edited IN PLACE so that the element count is unchanged (last resistor replaced), translated again:
             # the second translation must be the translation of a freshly drawn identical picture
@@ -443,7 +446,7 @@ def all_ops():
         ops += [['create_schematic', d], ['simulate', d], ['schematic_roundtrip', d]]
     ops += [['create_schematic', 'sdesc2'], ['edit_schematic']]
     for c in ('circ0', 'circ2'):
-        ops += [['transform_res', c, 50.0, 1e-3], ['transform_res', c, 50.0, 2.0], ['transform_res', c, 49.5, 1e-3], ['transform_res', c, 49.5, 2.0]]
+        ops += [['transform_res', c, 0.5, 1e-3], ['transform_res', c, 0.5, 2.0], ['transform_res', c, 0.0, 1e-3], ['transform_res', c, 0.0, 2.0]]
     ops += [['fourier', f'pf{k}'] for k in range(5)]
     ops += [['make_circuit', 'complist0'], ['make_circuit', 'complist1'], ['make_network', 'branchlist0']]
     ops += [['load_file', 'desc0'], ['load_file', 'desc1'], ['dump_load_file', 'doc0', 'json'], ['dump_load_file', 'flat0', 'json'],
